@@ -209,6 +209,15 @@ model does not exhibit. -/
 theorem C08_stack_error_branch_cannot_panic : Facts.stackErrAssertCommaOk = true := by
   decide
 
+/-- F6s: `C08_monitor_step_enabled` holds because every event the monitor hands to the callback goroutine goes
+through the model's `trySubmit`, a step that is enabled whatever the queue holds.  This is its regenerated tie: on the
+monitor goroutine (`monitor`, `updateSourceValue`) the code submits through `submitEvent` at the model's four
+submission steps (stacking error, verification error, new config, source error), never through
+`submitEventBlocking` or a bare send, and `submitEvent`'s send sits in a `select` with a `default` case. -/
+theorem C08_monitor_submissions_never_wait :
+    Facts.monitorSubmits = 4 ∧ Facts.monitorBlockingSubmits = 0 ∧ Facts.submitEventHasDefault = true := by
+  decide
+
 /-- regenerated capacities (F3) -/
 theorem C08_capacities : Facts.capCbch = 64 ∧ Facts.capMonCtl = 3 ∧ Facts.capEvents = 1 := by
   decide
